@@ -21,6 +21,7 @@ import posixpath
 import shutil
 import types
 
+import crosshair.core_and_libs  # noqa: library models are registered first
 from crosshair import core as _core
 from crosshair.core import NoTracing
 from crosshair.libimpl import builtinslib as _bl
@@ -49,20 +50,17 @@ _core._PATCH_REGISTRATIONS[format] = format_model
 
 
 def format_model_check(n: int):
-    """harness-style function: f-string of a symbolic int equals its decimal expansion (run under the engine)"""
+    """harness-style function: the f-string of a symbolic int equals its decimal expansion (run under the engine)"""
     if not -10 ** 7 <= n <= 10 ** 7:
         return None
-    text = f"<{n}|{n + 1}>"
-    want = []
-    for v in (n, n + 1):
-        m = v if v >= 0 else -v
-        ds = [m % 10]
-        while m >= 10:
-            m = m // 10
-            ds.append(m % 10)
-        want.append(("-" if v < 0 else "") + "".join(chr(48 + d) for d in reversed(ds)))
-    if text != "<" + want[0] + "|" + want[1] + ">":
-        return "f-string %r, digits %r" % (text, want)
+    m = n if n >= 0 else -n
+    ds = [m % 10]
+    while m >= 10:
+        m = m // 10
+        ds.append(m % 10)
+    want = ("-" if n < 0 else "") + "".join(chr(48 + d) for d in reversed(ds))
+    if f"<{n}>" != "<" + want + ">":
+        return "f-string %r, digits %r" % (f"<{n}>", want)
     return None
 
 
@@ -95,6 +93,19 @@ class FakeFile:
 
     def close(self):
         self.closed = True
+
+
+class ErrorLog:
+    """wsgi.errors: records what the application writes"""
+
+    def __init__(self):
+        self.lines = []
+
+    def write(self, text):
+        self.lines.append(text)
+
+    def flush(self):
+        pass
 
 
 class _Stat:
